@@ -103,10 +103,9 @@ theorem mem_itemsSeeds {it : Item} {ss : List Seed} :
   induction ss with
   | nil => simp [itemsSeeds]
   | cons s ss ih =>
-    cases s with
-    | const => simp [itemsSeeds, Seed.items, ih]
-    | variable ty0 =>
-      simp only [itemsSeeds, Seed.items, List.mem_append, ih, List.mem_cons, Seed.variable.injEq]
+    rcases s with _ | ty0
+    · simp [itemsSeeds, Seed.items, ih]
+    · simp only [itemsSeeds, Seed.items, List.mem_append, ih, List.mem_cons, Seed.variable.injEq]
       constructor
       · rintro (h | ⟨ty, h1, h2⟩)
         · exact ⟨ty0, Or.inl rfl, h⟩
@@ -144,13 +143,13 @@ theorem TypeDef.Sub.items_sub {x t : TypeDef} (h : TypeDef.Sub x t) {it : Item}
     (hi : it ∈ x.items) : it ∈ t.items := by
   induction h with
   | refl => exact hi
-  | step hc _ ih => exact hc.items_sub (ih hi)
+  | step hc _ ih => exact hc.items_sub ih
 
 theorem TypeDef.Sub.trans {x y z : TypeDef} (h1 : TypeDef.Sub x y) (h2 : TypeDef.Sub y z) :
     TypeDef.Sub x z := by
   induction h2 with
   | refl => exact h1
-  | step hc _ ih => exact .step hc (ih h1)
+  | step hc _ ih => exact .step hc ih
 
 theorem TypeDef.Occurs.of_child {it : Item} {c p : TypeDef} (hc : TypeDef.Child c p)
     (h : TypeDef.Occurs it c) : TypeDef.Occurs it p := by
@@ -300,7 +299,7 @@ theorem AccountSetDef.Sub.items_sub {x a : AccountSetDef} (h : AccountSetDef.Sub
     (hi : it ∈ x.items) : it ∈ a.items := by
   induction h with
   | refl => exact hi
-  | step hc _ ih => exact hc.items_sub (ih hi)
+  | step hc _ ih => exact hc.items_sub ih
 
 theorem AccountSetDef.Occurs.of_child {it : Item} {c p : AccountSetDef}
     (hc : AccountSetDef.Child c p) (h : AccountSetDef.Occurs it c) : AccountSetDef.Occurs it p := by
